@@ -107,7 +107,7 @@ func askWorldKinds() []askWorldKind {
 		}},
 		{"wlswarm", func(n int) (out []*askNode) {
 			for _, m := range mems(n) {
-				out = append(out, mkAskNode[memswarm.Addr](wlswarm.WrapSecureAsk[memswarm.Addr, x509.PublicKey](m, func(memswarm.Addr) bool { return true }), first))
+				out = append(out, mkAskNode[memswarm.Addr](wlswarm.WrapSecureAsk[memswarm.Addr, x509.PublicKey](m, func(a memswarm.Addr) bool { return a.N%3 != 2 }), first))
 			}
 			return
 		}},
@@ -288,6 +288,9 @@ func c11Case(c *ctxT, r *gen.R, kind askWorldKind) {
 		}
 		if rec.to == deaf {
 			rec.deadlineMs = 300
+		}
+		if kind.name == "wlswarm" && (rec.from%3 == 2 || rec.to%3 == 2) {
+			rec.flags |= 8 // the whitelist wrapper rejects node 2, as asker and as destination
 		}
 		recs[i] = rec
 		req := c11Request(rec.id, rec.want, rec.flags, gen.Pick(r, []int{0, 3, 40, 200}))
